@@ -27,7 +27,7 @@ from .. import infer_util as U
 from ..kernel import HarnessError, StopRun, Streams, innermost_project_frame
 from ..ref.routing import make_ref
 
-ENVS = ["tsp", "cvrp", "sdvrp", "pdp", "op", "pctsp"]
+ENVS = ["tsp", "cvrp", "sdvrp", "pdp", "op", "pctsp"]  # not mtsp: tasks/eval.py re-scores on the reset state, which mTSP minmax cannot do (observation, DESIGN 10.3)
 METHODS = ["greedy", "sampling", "multistart_greedy", "augment", "augment_dihedral_8",
            "multistart_greedy_augment", "multistart_greedy_augment_dihedral_8"]
 COPY0_TOL = 1e-6  # coordinates of the identity copy: equal up to float32 rounding of (x - 0.5) + 0.5
@@ -124,8 +124,16 @@ class C15:
         spec = U.sample_policy_spec("am", name, rc)
         spec["kw"]["normalization"] = rc.choice(["instance", "batch", "layer"])
         spec["kw"]["use_graph_context"] = True  # without it PDP's context crashes at B=1 (C14's finding)
+        lit = None
+        if name in ("tsp", "cvrp", "sdvrp", "op", "pctsp") and rc.random() < 0.2:
+            # part C instead of part B: the POMO / SymNCO modules' own test-phase augmentation + best-of-k
+            mdl = rc.choice(["pomo", "pomo", "symnco"])
+            fn = rc.choice(["symmetric", "dihedral8"]) if mdl == "pomo" else "symmetric"
+            lit = {"model": mdl, "fn": fn, "num_augment": 8 if fn == "dihedral8" else rc.choice([2, 3, 4]),
+                   "num_starts": rc.randint(2, max(2, min(n, 4))), "seed": rc.randrange(1 << 30)}
+            rows = rows[: min(len(rows), 4)]
         return {"cfg": cfg, "coords": mode, "instances": [E.enc_row(r) for r in rows], "aug": aug,
-                "eval": ev, "policy": spec}
+                "eval": ev, "policy": spec, "lit": lit}
 
     @staticmethod
     def sample(run):
@@ -176,7 +184,132 @@ class C15:
             check_augmentation(run, env, cfg, rows, plan["aug"])
         except StopRun:
             pass  # part B is independent of part A
-        check_evaluation(run, env, cfg, rows, plan["eval"], plan["policy"])
+        if plan.get("lit"):
+            check_lit_test_step(run, env, cfg, rows, plan["lit"], plan["policy"])
+        else:
+            check_evaluation(run, env, cfg, rows, plan["eval"], plan["policy"])
+
+
+# ------------------------------------------------------------------------------------------------
+# part C: the multi-start / augmentation models' own test-phase best-of-k (POMO, SymNCO shared_step)
+# ------------------------------------------------------------------------------------------------
+def check_lit_test_step(run, env, cfg, rows, lit, spec):
+    """POMO / SymNCO `shared_step(batch, 0, "test")`: every candidate rollout is scored on an augmented copy;
+    because augmentation is an isometry the score must be the objective of that rollout's actions on the
+    ORIGINAL instance, `max_aug_reward` must be the maximum over the instance's own candidates and
+    `best_aug_actions` must be worth exactly that on the original instance."""
+    from ..ref import routing as RR
+    from .. import train_util as TU
+
+    name = cfg["env"]
+    scope = f"{lit['model']}:test_step/{name}"
+    B = len(rows)
+    A, S = lit["num_augment"], lit["num_starts"]
+    torch.manual_seed(spec["seed"])
+    with run.guard(scope, "construct policy", promise=False):
+        policy = U.make_policy(spec) if hasattr(U, "make_policy") else None
+    if policy is None:
+        raise HarnessError("infer_util.make_policy missing")
+    with run.guard(scope, "construct model", promise=False):
+        if lit["model"] == "pomo":
+            from rl4co.models.zoo.pomo import POMO
+
+            model = POMO(env, policy=policy, num_augment=A, augment_fn=lit["fn"], num_starts=S,
+                         batch_size=B, train_data_size=B, val_data_size=B, test_data_size=B)
+        else:
+            from rl4co.models.zoo.symnco import SymNCO
+
+            model = SymNCO(env, policy=policy, num_augment=A, num_starts=S, batch_size=B, train_data_size=B,
+                           val_data_size=B, test_data_size=B)
+    TU.shim(model)
+    captured = {}
+
+    def log_metrics(out, phase, dataloader_idx=None):
+        captured.update(out)
+        return {}
+
+    object.__setattr__(model, "log_metrics", log_metrics)
+    raw = {}
+    orig_forward = policy.forward
+
+    def tapped_forward(*a, **k):
+        o = orig_forward(*a, **k)
+        for key in ("reward", "actions"):
+            if key in o and isinstance(o[key], torch.Tensor):
+                raw[key] = o[key].detach().clone()
+        return o
+
+    policy.forward = tapped_forward
+    model.eval()
+    batch = E.batch_of(cfg, [{k: v.clone() for k, v in r.items()} for r in rows])
+    torch.manual_seed(lit["seed"])
+    with torch.no_grad():
+        with run.guard(scope, 'shared_step(batch, 0, "test")', B=B, num_augment=A, num_starts=S):
+            model.shared_step(batch, 0, phase="test")
+    run.stats["lit_steps:" + lit["model"]] += 1
+    run.nontrivial = True
+    refs = [RR.make_ref(name, r, cfg) for r in rows]
+    if "reward" not in raw or "actions" not in raw:
+        raise HarnessError("policy output without reward/actions")
+    rew = raw["reward"].detach().double().reshape(-1)      # flat rollouts: row r belongs to instance r mod B
+    acts = raw["actions"]
+    R = rew.shape[0]
+    if R % B != 0 or acts.shape[0] != R:
+        run.violate(scope, "rows", f"{R} rollouts for {B} instances", constraint="row_count", cfg=cfg)
+        raise StopRun()
+    # ---- every scored candidate: reward == objective of its actions on the ORIGINAL instance ----------------
+    per_inst = [[] for _ in range(B)]
+    for r in range(R):
+        b = r % B
+        a = [int(x) for x in acts[r].tolist()]
+        want = refs[b].objective(_strip_pad(name, a))
+        got = float(rew[r])
+        per_inst[b].append(got)
+        if abs(got - want) > _ltol(want, len(a)):
+            run.violate(scope, "candidate_vs_objective",
+                        f"instance {b}: rollout {r} is scored {got!r} on its augmented copy but its actions {a} are "
+                        f"worth {want!r} on the original instance (augmentation must preserve costs)",
+                        constraint="isometry", instance=b, got=got, want=want, num_augment=A, num_starts=S,
+                        fn=lit["fn"], cfg=cfg)
+            raise StopRun()
+    run.probe("lit_candidates_checked", R)
+    # ---- reported best-of-k ---------------------------------------------------------------------------------
+    best_key = "max_aug_reward" if A > 1 else "max_reward"
+    if best_key in captured and captured[best_key].numel() == B:
+        mx = captured[best_key].detach().double().reshape(-1)
+        for b in range(B):
+            top = max(per_inst[b])
+            if abs(float(mx[b]) - top) > _ltol(top, 1):
+                run.violate(scope, "best_of_k", f"instance {b}: {best_key} {float(mx[b])!r} is not the maximum {top!r} over "
+                            f"its own {len(per_inst[b])} candidates", constraint="max", instance=b, num_augment=A,
+                            num_starts=S, cfg=cfg)
+                raise StopRun()
+        run.probe("lit_best_checked")
+        ba = captured.get("best_aug_actions") if A > 1 else captured.get("best_multistart_actions")
+        if ba is not None and ba.dim() == 2 and ba.shape[0] == B:
+            for b in range(B):
+                a = [int(x) for x in ba[b].tolist()]
+                want = refs[b].objective(_strip_pad(name, a))
+                if abs(float(mx[b]) - want) > _ltol(want, len(a)):
+                    run.violate(scope, "best_actions_vs_objective", f"instance {b}: reported best reward {float(mx[b])!r} "
+                                f"but the reported best actions {a} are worth {want!r} on the original instance",
+                                constraint="best_actions", instance=b, num_augment=A, num_starts=S, cfg=cfg)
+                    raise StopRun()
+            run.probe("lit_best_actions_checked")
+
+
+def _strip_pad(name, a):
+    """drop trailing depot padding of a candidate (depot-based environments)"""
+    if name in ("cvrp", "sdvrp", "op", "pctsp", "cvrptw"):
+        while len(a) > 1 and a[-1] == 0 and a[-2] == 0:
+            a = a[:-1]
+    return a
+
+
+def _ltol(ref, n):
+    import math
+
+    return 1e-4 * max(1.0, abs(ref)) * math.sqrt(max(n, 1))
 
 
 # ------------------------------------------------------------------------------------------------
